@@ -45,8 +45,8 @@ func cs(v uint64) []byte {
 	return append([]byte(nil), b[:n]...)
 }
 
-func segF(b []byte) Seg        { return Seg{K: "F", B: b, N: uint64(len(b))} }
-func segC(n uint64, e int) Seg { return Seg{K: "C", B: cs(n), E: e, N: n} }
+func segF(b []byte) Seg         { return Seg{K: "F", B: b, N: uint64(len(b))} }
+func segC(n uint64, e int) Seg  { return Seg{K: "C", B: cs(n), E: e, N: n} }
 func segV(n uint64, of int) Seg { return Seg{K: "V", B: cs(n), N: n, E: of} } // of: size of the collection it indexes
 func segLB(b []byte) []Seg {
 	return []Seg{{K: "L", B: cs(uint64(len(b))), N: uint64(len(b))}, {K: "B", B: b, N: uint64(len(b))}}
